@@ -291,6 +291,7 @@ theorem vContract_eq {m : Bqm} (tv : VT) {u v : Label} {ui vi : Nat} (hu : m.ind
     · exact (ext_vAddLinear m _ u _).trans (ext_vSetOffset _ _ _)
     · exact (ext_vAddLinear m _ u _).trans (ext_vAddLinear _ _ u _)
   · intro acc p
+    unfold Bqm.loopBody
     split
     · exact ext_vAddQuadratic acc tv u _ _
     · exact LabelsExt.refl acc
